@@ -244,8 +244,8 @@ CLAIMS["C07"] = {
     "text": "PairBimorphism::call is verified by Verus generically (r.a == lat_a, r.b == lat_b) and both distributivity equations are a lemma over "
             "the product carrier (lemma_pair_bimorphism). CartesianProductBimorphism::call is checked by Kani against its model (output == A x B, "
             "every pair once; distributivity over union is then set algebra about the model) and, in the thorough tier, by the two-call "
-            "distributivity equation (operands <= 2 elements).",
-    "note": "GHT bimorphisms are not covered (see C08). KeyedBimorphism::call is NOT covered: its harness (one entry per side) needs 30 min of CBMC on a quiet machine and is kept with a `deep_` prefix in no tier. Kani parts are bounded by operand size; Vec as output collection is trusted.",
+            "distributivity equation (operands <= 2 elements); KeyedBimorphism::call against its key-wise model for one entry per side (concrete keys, symbolic one-element value sets).",
+    "note": "GHT bimorphisms are not covered (see C08). KeyedBimorphism::call is covered for one entry per side with CONCRETE keys (same key: exactly that key is kept and its value is the value bimorphism's output; different keys: empty result) -- with symbolic keys the same harness needs 30 min of CBMC and is kept with a `deep_` prefix in no tier. Kani parts are bounded by operand size; Vec as output collection is trusted.",
     "technique": "contract-based deductive verification (Verus on the spliced body + lemma; Kani harness contracts against the product model)",
     "design": "DESIGN.md §5 C07",
 }
